@@ -36,7 +36,7 @@ NB == <<"gcall", <<C>>>>
 Ladders == { <<"tern", C, C, <<"tern", NB, C, C>>>>, <<"tern", C, <<"tern", NB, C, C>>, C>>, <<"tern", C, C, <<"tern", C, C, <<"tern", NB, C, C>>>>>>,
              <<"tern", C, C, <<"tern", C, <<"tern", NB, C, C>>, C>>>>, <<"tern", <<"tern", C, NB, C>>, C, C>>, <<"list", <<C, <<"tern", C, C, <<"tern", NB, C, C>>>>>>>> }
 \* an operator application that fails in the middle of a chain: nothing to its right runs
-FChains == { <<"bsum", <<C, C>>>>, <<"bsum", <<C, <<"bsum", <<C>>>>, C>>>>, <<"calc", <<"fcalc", C, C>>, C>>, <<"fcalc", <<"fcalc", C, C>>, C>>, <<"calc", C, <<"fcalc", C, C>>>>, <<"list", <<C, <<"calc", <<"fcalc", C, C>>, C>>, C>>>>,
+FChains == { <<"casecall", <<C>>>>, <<"bsum", <<C, C>>>>, <<"bsum", <<C, <<"bsum", <<C>>>>, C>>>>, <<"calc", <<"fcalc", C, C>>, C>>, <<"fcalc", <<"fcalc", C, C>>, C>>, <<"calc", C, <<"fcalc", C, C>>>>, <<"list", <<C, <<"calc", <<"fcalc", C, C>>, C>>, C>>>>,
              <<"gcall", <<<<"fcalc", C, C>>, C>>>>, <<"map", <<<<<<"fcalc", C, C>>, C>>>>>>, <<"tern", <<"fcalc", C, C>>, C, C>> }
 Shapes == IF Depth = 1 THEN {C, <<"var">>} \cup Over(Kids1) \cup {<<"map", <<<<C, C>>, <<C, C>>>>>>, <<"stmt", <<>>>>, <<"stmt", <<C, C, C>>>>}
           ELSE Ladders \cup FChains \cup Over(Kids2) \cup {<<"stmt", <<a, b, c>>>> : a \in {C, <<"set", C>>}, b \in Kids2, c \in {C, <<"var">>, <<"tern", C, C, C>>}}
@@ -48,7 +48,7 @@ Size(t) ==
     [] t[1] \in {"un", "post", "set", "cset", "setbad", "unk", "setfn", "uun", "upost", "uset"} -> Size(t[2])
     [] t[1] \in {"calc", "ucalc", "fcalc"} -> Size(t[2]) + Size(t[3])
     [] t[1] \in {"tern", "inlist"} -> Size(t[2]) + Size(t[3]) + Size(t[4])
-    [] t[1] \in {"list", "stmt", "gcall", "unkcall", "varcall", "bsum"} -> SizeSeq(t[2])
+    [] t[1] \in {"list", "stmt", "gcall", "unkcall", "varcall", "bsum", "casecall"} -> SizeSeq(t[2])
     [] t[1] = "map" -> SizeSeq([i \in 1..2 * Len(t[2]) |-> t[2][(i + 1) \div 2][IF i % 2 = 1 THEN 1 ELSE 2]])
 \* concrete program: leaves numbered base+1.. in source order; mode decides how leaf i is reached
 Leaf(i, mode) == IF mode = "call" \/ (mode = "mixed" /\ i % 2 = 1) THEN <<"call", NAME[i], <<>>>> ELSE <<"ref", NAME[i]>>
@@ -75,6 +75,7 @@ Build(t, base, mode) ==
     [] t[1] = "list" -> <<"list", BuildSeq(t[2], base, mode)>>
     [] t[1] = "stmt" -> <<"stmt", BuildSeq(t[2], base, mode)>>
     [] t[1] = "gcall" -> <<"call", "G", BuildSeq(t[2], base, mode)>>
+    [] t[1] = "casecall" -> <<"call", "GL", BuildSeq(t[2], base, mode)>>        \* only `gl` is registered: names are matched exactly
     [] t[1] = "bsum" -> <<"call", "sum", BuildSeq(t[2], base, mode)>>           \* the built-in aggregate on booleans: it fails, after ALL its arguments ran
     [] t[1] = "unkcall" -> <<"call", "nosuch", BuildSeq(t[2], base, mode)>>
     [] t[1] = "varcall" -> <<"call", "x", BuildSeq(t[2], base, mode)>>                   \* x is a context *variable*: the global x is called
@@ -92,7 +93,7 @@ EnvOf(L, script, fault) ==
                    [ret |-> IF \E i \in 1..L : HID[i] = h THEN VBool(script[CHOOSE i \in 1..L : HID[i] = h])
                             ELSE IF h = "h11" THEN VInt(7) ELSE IF h = "h10" THEN VInt(5) ELSE VBool(TRUE), act |-> "lockctx",
                     copy |-> IF ~Mutators THEN <<>> ELSE IF h = "h2" THEN <<"x", "y">> ELSE IF h = "h5" THEN <<"n12", "x">> ELSE IF h = "h11" THEN <<"n1", "g">> ELSE <<>>]],
-   gfun |-> ("G" :> "h11") @@ ("x" :> "h10"), gprefix |-> ("upre" :> "h13"), gpostfix |-> ("upost" :> "h14"),
+   gfun |-> ("G" :> "h11") @@ ("x" :> "h10") @@ ("gl" :> "h18"), gprefix |-> ("upre" :> "h13"), gpostfix |-> ("upost" :> "h14"),
    \* `+` is replaced by a user handler as well: the compound `+=` keeps its own built-in arithmetic and may not go through it
    ginfix |-> ("uin" :> <<"h15", "CALC">>) @@ ("uasg" :> <<"h16", "SETTER">>) @@ ("+" :> <<"h17", "CALC">>), fault |-> fault]
 CtxOf(L) == [nm \in {NAME[i] : i \in 1..L} \cup {"n12", "x"} |->
